@@ -158,7 +158,7 @@ def case_weights(case):
     bad = np.flatnonzero((n1 != e1) | (nh != eh) | (n1 + nh + n0 != W.shape[1]))
     if len(bad):
         i = int(bad[0])
-        row = {c: W[i, j] for j, c in enumerate(cols) if W[i, j] != 0}
+        row = {c: float(W[i, j]) for j, c in enumerate(cols) if W[i, j] != 0}
         viol.append({"clause": "weight_pattern", "key": key,
                      "detail": f"{where}: {idx[i]} carries {row}; expected exactly {e1} weight(s) of 1 and {eh} of 0.5, 0 elsewhere; "
                                f"{len(bad)} hours in months {sorted(set(months[bad].tolist()))}"})
@@ -587,7 +587,7 @@ def _check_design(dm, nrows, T, hows, flags, occ_eps, unocc_eps, exp_weight, key
     bad = np.flatnonzero(tot != T)
     if len(bad):
         i = int(bad[0])
-        viol.append({"clause": "design_bins_sum", "key": dict(key, flag=int(flags[i])),
+        viol.append({"clause": "design_bins_sum", "key": key,
                      "detail": f"{where}: {idx[i]} (hour-of-week {hows[i]}, lookup flag {int(flags[i])}) has T={T[i]} but its bin features "
                                f"total {tot[i]} (occupied={O[i].tolist()} unoccupied={U[i].tolist()}); {len(bad)} rows"})
     # side and fill
@@ -636,8 +636,8 @@ def case_occupancy(case):
     hows = np.array([ref.hour_of_week(f[3], f[4]) for f in fields], dtype=float)[:nrows]
     temps = cycle_temps(idx)
     T = temps.to_numpy(dtype=float)[:nrows]
-    key = {"part": "occupancy", "path": path, "lookup": lookup, "dtype": dtype}
-    where0 = f"zone={zone} type={st} bins={config}"
+    key = {"part": "occupancy", "path": path}  # coarse on purpose: lookup kind / dtype / bin tables are in the detail
+    where0 = f"zone={zone} type={st} lookup={lookup}/{dtype} bins={config}"
     viol = []
     n_seg = 0
     sides = {"occupied": 0, "unoccupied": 0}
